@@ -194,18 +194,20 @@ package keeper
 //@ define DV(c, svc, prov) = uf("discount_by_volume", get(pricings, svc, prov), ite(has(volumes, c, svc, prov), get(volumes, c, svc, prov), 0))
 //@ define FEE(c, svc, prov, d) = uf("discounted", amt(get(pricings, svc, prov).Price, d), DT(svc, prov), DV(c, svc, prov))
 //@ func Keeper.GetPrice
-//@   property C07
+//@   property C07, C13
 //@   trusted
 //@   returns fee
 //@   ensures fee_def: forall d:Str :: amt(fee, d) == FEE(consumer, binding.ServiceName, addr(binding.Provider), d) && amt(fee, d) >= 0
 //@   ensures no_discount: DT(binding.ServiceName, addr(binding.Provider)) == DEC_ONE && DV(consumer, binding.ServiceName, addr(binding.Provider)) == DEC_ONE
 //@                        ==> (forall d:Str :: amt(fee, d) == amt(get(pricings, binding.ServiceName, addr(binding.Provider)).Price, d))
+//@   nopanic
 //@ end
 // The price converted to the base denomination through the oracle feed (assumed: reads only).
 //@ func Keeper.GetExchangedPrice
-//@   property C07
+//@   property C07, C13
 //@   trusted
 //@   returns price, rawDenom, err
+//@   nopanic
 //@ end
 
 // Which providers take part in a batch and what the consumer is charged for it.
@@ -223,6 +225,7 @@ package keeper
 //@   ensures charged_is_recorded_fee: err == nil && len(providers) == 1 && len(selected) == 1 && get(bindings, serviceName, providers[0]).Provider == bech(providers[0])
 //@                        && get(bindings, serviceName, providers[0]).ServiceName == serviceName
 //@                        ==> (forall d:Str :: amt(total, d) == FEE(consumer, serviceName, providers[0], d))
+//@   nopanic
 //@ end
 
 // ---------------------------------------------------------------------------------------------
@@ -243,17 +246,20 @@ package keeper
 //@   property C07
 //@   trusted
 //@   returns p, err
+//@   nopanic
 //@ end
 //@ func Keeper.GetMinDeposit
-//@   property C07
+//@   property C07, C13
 //@   trusted
 //@   returns min, err
+//@   nopanic
 //@ end
 //@ func Keeper.validateDeposit
 //@   property C07
 //@   trusted
 //@   returns err
 //@   ensures shape: err == nil ==> (forall d:Str :: amt(deposit, d) >= 0)
+//@   nopanic
 //@ end
 
 //@ define BIND(svc, p) = get(bindings, svc, p)
@@ -306,7 +312,7 @@ package keeper
 
 // a stored compact request decodes to a full request: provider and fee come from the compact record
 //@ func Keeper.GetRequest
-//@   property C07, C08
+//@   property C07, C08, C13
 //@   returns request, found
 //@   ensures source: found ==> has(requests, requestID) && request.Provider == get(requests, requestID).Provider && bechok(request.Provider)
 //@                       && request.ServiceFee == get(requests, requestID).ServiceFee && request.ExpirationHeight == get(requests, requestID).ExpirationHeight
@@ -316,6 +322,7 @@ package keeper
 //@                       && request.Consumer == CTX(unhex(get(requests, requestID).RequestContextId)).Consumer
 //@   ensures found_when: has(requests, requestID) && bechok(get(requests, requestID).Provider) && ufb("hex_ok", get(requests, requestID).RequestContextId)
 //@                       && has(contexts, unhex(get(requests, requestID).RequestContextId)) && bechok(CTX(unhex(get(requests, requestID).RequestContextId)).Consumer) ==> found
+//@   nopanic C13
 //@ end
 
 // module callbacks run code of the registering module: assumed not to touch this module's store or its escrow accounts
@@ -324,6 +331,7 @@ package keeper
 //@   trusted
 //@   returns rc
 //@   ensures done: rc == with(requestContext, "BatchState", types.BATCHCOMPLETED)
+//@   nopanic
 //@ end
 
 //@ define REQUEST(i) = get(requests, i)
@@ -403,6 +411,7 @@ package keeper
 //@   property C08, C13
 //@   trusted
 //@   returns err
+//@   nopanic
 //@ end
 
 // A stored repeated context never asks for a new batch before the previous one can have expired.
@@ -488,25 +497,28 @@ package keeper
 //@ define SLASHFRAC = get(prm).SlashFraction
 //@ define BASE = get(prm).BaseDenom
 //@ func Keeper.Slash
-//@   property C07
+//@   property C07, C13
 //@   returns err
 //@   requires has(prm) && !isnil(SLASHFRAC) && raw(SLASHFRAC) >= 0 && raw(SLASHFRAC) <= DEC_ONE && ufb("denom_valid", BASE)
 //@   requires k.feeCollectorName != "service_request_account" && k.feeCollectorName != "service_deposit_account"
-//@   requires has(requests, requestID) && bechok(REQUEST(requestID).Provider) && ufb("hex_ok", REQUEST(requestID).RequestContextId)
-//@   requires has(contexts, unhex(REQUEST(requestID).RequestContextId)) && bechok(CTX(unhex(REQUEST(requestID).RequestContextId)).Consumer)
+//@   requires forall s:Str :: forall p:Bytes :: forall d:Str :: has(bindings, s, p) ==> amt(BIND(s, p).Deposit, d) >= 0
 //@   let svc = CTX(unhex(REQUEST(requestID).RequestContextId)).ServiceName
 //@   let prov = addr(REQUEST(requestID).Provider)
-//@   requires has(bindings, svc, prov) && BIND(svc, prov).ServiceName == svc && BIND(svc, prov).Provider == REQUEST(requestID).Provider
-//@                && (forall d:Str :: amt(BIND(svc, prov).Deposit, d) >= 0)
+// the request decodes (the end blocker calls Slash for active requests) and its binding is stored under its own name
+//@   let wf = has(requests, requestID) && bechok(REQUEST(requestID).Provider) && ufb("hex_ok", REQUEST(requestID).RequestContextId)
+//@            && has(contexts, unhex(REQUEST(requestID).RequestContextId)) && bechok(CTX(unhex(REQUEST(requestID).RequestContextId)).Consumer)
+//@            && has(bindings, svc, prov) && BIND(svc, prov).ServiceName == svc && BIND(svc, prov).Provider == REQUEST(requestID).Provider
 //@   let dep0 = amt(BIND(svc, prov).Deposit, BASE)
 //@   let cut = (dep0 * raw(SLASHFRAC)) div DEC_ONE
 //@   modifies bal, bindings
-//@   ensures moved:    err == nil ==> bal(DEP, BASE) == old(bal(DEP, BASE)) - cut && bal(FEECOL, BASE) == old(bal(FEECOL, BASE)) + cut
-//@   ensures recorded: err == nil ==> amt(BIND(svc, prov).Deposit, BASE) == dep0 - cut
+//@   ensures moved:    wf && err == nil ==> bal(DEP, BASE) == old(bal(DEP, BASE)) - cut && bal(FEECOL, BASE) == old(bal(FEECOL, BASE)) + cut
+//@   ensures recorded: wf && err == nil ==> amt(BIND(svc, prov).Deposit, BASE) == dep0 - cut
 //@                       && (forall d:Str :: d != BASE ==> amt(BIND(svc, prov).Deposit, d) == old(amt(BIND(svc, prov).Deposit, d)))
 //@   ensures ledger_frame: forall a:Bytes :: forall d:Str :: (a != DEP && a != FEECOL) || d != BASE ==> bal(a, d) == old(bal(a, d))
+//@   ensures keeps_nonneg: forall s:Str :: forall p:Bytes :: forall d:Str :: has(bindings, s, p) ==> amt(BIND(s, p).Deposit, d) >= 0
 //@   lemma @return depUpd(old(bindings), svc, prov, BIND(svc, prov)) if err == nil
-//@   ensures deposit_inv: err == nil && old(depositInv) ==> depositInv
+//@   ensures deposit_inv: wf && err == nil && old(depositInv) ==> depositInv
+//@   nopanic C13
 //@ end
 
 //@ func Keeper.GetServiceDefinition
@@ -529,4 +541,39 @@ package keeper
 //@   ensures others:   forall s:Str :: forall p:Bytes :: (s != serviceName || p != provider) ==> has(bindings, s, p) == old(has(bindings, s, p)) && BIND(s, p) == old(BIND(s, p))
 //@   lemma @return depUpd(old(bindings), serviceName, provider, BIND(serviceName, provider)) if err == nil
 //@   ensures deposit_inv: err == nil && old(depositInv) ==> depositInv
+//@ end
+
+// queue iterations of the end blocker (helpers with callbacks; inlined into EndBlocker together with the closures)
+//@ define depNonneg = forall s:Str :: forall p:Bytes :: forall d:Str :: has(bindings, s, p) ==> amt(BIND(s, p).Deposit, d) >= 0
+//@ define endBlockInv = has(prm) && !isnil(SLASHFRAC) && raw(SLASHFRAC) >= 0 && raw(SLASHFRAC) <= DEC_ONE && ufb("denom_valid", BASE) && depNonneg
+//@ func Keeper.IterateExpiredRequestBatch
+//@   inline
+//@   invariant #1 inv: endBlockInv
+//@ end
+//@ func Keeper.IterateNewRequestBatch
+//@   inline
+//@   invariant #1 inv: endBlockInv
+//@ end
+//@ func Keeper.IterateActiveRequests
+//@   inline
+//@   invariant #1 inv: endBlockInv
+//@ end
+//@ func Keeper.CleanBatch
+//@   inline
+//@   invariant #1 inv: endBlockInv
+//@ end
+//@ func Keeper.InitiateRequests
+//@   inline
+//@   invariant #1 inv: endBlockInv
+//@   invariant #1 idx: rangeindex >= 0 - 1 && rangeindex < len(providers)
+//@ end
+
+// pausing a context for lack of funds: the context record is rewritten and the owning module (if any) is told through its
+// registered state callback (A-CALLBACK: a callback is registered for every module name stored in a context - checked
+// when the context is created - and does not touch this module's store or escrow accounts)
+//@ func Keeper.OnRequestContextPaused
+//@   property C13, C08
+//@   trusted
+//@   modifies contexts
+//@   nopanic
 //@ end
